@@ -2,6 +2,7 @@ import RzmqModel.Driver.Common
 import RzmqModel.Model.Routing
 import RzmqModel.Model.Multipart
 import RzmqModel.Model.Pool
+import RzmqModel.Model.Tracker
 namespace Rzmq.Driver.Routing
 open Rzmq Rzmq.Driver
 
@@ -11,6 +12,7 @@ structure St where
   map : RouterMap := {}
   stash : Stash := {}
   pool : Option Pool := none
+  trk : Tracker := {}
 
 def b (v : Bool) : String := if v then "true" else "false"
 
@@ -37,8 +39,55 @@ def stashOp (st : St) (ev : StashEv) : St × String :=
   let r := st.stash.step ev
   ({ st with stash := r.1 }, showStashOut r.2)
 
+def parseKind (k : String) : OpKind :=
+  match k.splitOn ":" with
+  | ["send"] => .send | ["vec"] => .vec | ["read"] => .read | ["mread"] => .mread | ["accept"] => .accept
+  | ["zc", b] => .zc b.toNat! | ["lease", b] => .lease b.toNat!
+  | _ => .cancel
+
+def showOp (o : TOp) : String :=
+  let k := match o.kind with
+    | .accept => "accept" | .read => "read" | .mread => "mread" | .cancel => "cancel"
+    | .send => "send:10b" | .vec => "vec:10b" | .zc b => s!"zc:{b}" | .lease b => s!"lease:{b}"
+  s!"{k}@{o.fd}"
+
+/-- order of the harness: (key, description, waiting for a notification) -/
+def trkLe (a b : Nat × String × Bool) : Bool :=
+  a.1 < b.1 || (a.1 == b.1 && (a.2.1 < b.2.1 || (a.2.1 == b.2.1 && (!a.2.2 || b.2.2))))
+
+def trkInsert (x : Nat × String × Bool) : List (Nat × String × Bool) → List (Nat × String × Bool)
+  | [] => [x]
+  | y :: ys => if trkLe x y then x :: y :: ys else y :: trkInsert x ys
+
+def trkState (t : Tracker) : String :=
+  let slabEntries := (List.range t.slab.length).filterMap fun k => (t.slabGet k).map fun o => (k, showOp o, false)
+  let notifEntries := t.notif.map fun p => (p.1, showOp p.2, true)
+  let all := (slabEntries ++ notifEntries).foldr trkInsert []
+  " ".intercalate (all.map fun e => s!"{if e.2.2 then "n" else ""}{e.1}={e.2.1}")
+
+def parseInt (s : String) : Int := s.toInt?.getD 0
+
 def runOp (st : St) (p : List String) : St × String :=
   match p with
+  | ["trk", "new"] => ({ st with trk := {} }, "ok")
+  | ["trk", "submit", fd, kind] =>
+    let r := st.trk.insert { fd := parseInt fd, kind := parseKind kind }
+    ({ st with trk := r.1 }, toString r.2)
+  | ["trk", "closefd", fd] => ({ st with trk := (st.trk.closeFd currentTrkCfg.close (parseInt fd)).1 }, "ok")
+  | ["trk", "complete", k, n] =>
+    let r := st.trk.take currentTrkCfg.byKind k.toNat! (n == "1")
+    ({ st with trk := r.1 }, match r.2 with | some o => showOp o | none => "unknown")
+  | ["trk", "notify", k] =>
+    let key := k.toNat!
+    let r := st.trk.take currentTrkCfg.byKind key false
+    match r.2 with
+    | none => ({ st with trk := r.1 }, "unknown")
+    | some o =>
+      let t' := match o.kind.buf with
+        | some bf => r.1.awaitNotification currentTrkCfg.keepsSlot key { fd := o.fd, kind := .lease bf }
+        | none => r.1
+      ({ st with trk := t' }, showOp o)
+  | ["trk", "state"] => (st, trkState st.trk)
   | ["pool", "new", c, cap] => ({ st with pool := some (Pool.new c.toNat! cap.toNat!) }, "ok")
   | "pool" :: rest =>
     match st.pool with
